@@ -862,6 +862,12 @@ where
         } else if canceled.load(atomic::Ordering::Relaxed) {
             break true;
         } else {
+            // The recursive calls start with `was_balanced == true`, so an imbalanced partition
+            // has to be charged to `limit` here. Otherwise adversarial inputs nest one `join` per
+            // bad pivot (quadratic time, unbounded stack depth) and never reach heapsort.
+            if !was_balanced {
+                limit = limit.saturating_sub(1);
+            }
             // Sort the left and right half in parallel.
             let (canceled1, canceled2) = rayon::join(
                 || recurse(left, is_less, pred, limit, canceled),
